@@ -38,6 +38,16 @@ class StmtMixin:
         if not stmts:
             yield st, None
             return
+        if isinstance(stmts[0], (ast.If, ast.Try, ast.With)) and self.join_paths:
+            falls = []
+            for s1, out in self.stmt(stmts[0], st):
+                if out is not None:
+                    yield s1, out
+                else:
+                    falls.append(s1)
+            for m in self.merge(falls):
+                yield from self.run(stmts[1:], m)
+            return
         for s1, out in self.stmt(stmts[0], st):
             if out is not None:
                 yield s1, out
